@@ -53,6 +53,20 @@ def virtChain (v : Virt) : List String → List String
     | none => ["nomethod"]
     | some s => let w := v.as s; showVirt w :: virtChain w ms
 
+/-- Allocated registers up to the numbering policy: per kind, the rank of each
+id in order of first appearance, as `kind:rank:mask`. -/
+def ranks (vs : List Virt) : List String :=
+  let rec go (vs : List Virt) (seen : List (Nat × Nat)) (next : List (Nat × Nat)) : List String :=
+    match vs with
+    | [] => []
+    | v :: rest =>
+      match seen.lookup v.id with
+      | some rk => s!"{v.kind}:{rk}:{v.mask}" :: go rest seen next
+      | none =>
+        let rk := (next.lookup v.kind).getD 0
+        s!"{v.kind}:{rk}:{v.mask}" :: go rest ((v.id, rk) :: seen) ((v.kind, rk + 1) :: next)
+  go vs [] []
+
 def ctorReqs (ctors : List String) : Option (List (Nat × Nat)) := ctors.mapM ctorKindSpec
 
 /-- outcome token(s) `panic` | `id mask size` -/
@@ -85,28 +99,24 @@ def handle : Handler
   | "pas" :: i :: _n :: ms => do
     let r ← regs[(← i.toNat?)]?
     some (joinSp (showPhys r :: physChain r ms))
-  | "vas" :: ctor :: nprev :: _n :: ms => do
-    let (k, s) ← ctorKindSpec ctor
-    let n ← nprev.toNat?
-    -- the collection after `nprev` allocations with the same constructor
-    let c := Coll.after [] (List.replicate n (k, s))
-    let v := (c.alloc k s).1
+  | "vas" :: kind :: idx :: spec :: _n :: ms => do
+    -- the start register as the implementation reports it (the numbering policy of Collection is not pinned)
+    let v : Virt := ⟨← idx.toNat?, ← kind.toNat?, ← spec.toNat?⟩
     some (joinSp (showVirt v :: virtChain v ms))
   | "coll" :: _n :: ctors => do
     let reqs ← ctorReqs ctors
-    some (joinSp ((Coll.run [] reqs).map fun v => s!"{v.id}:{v.mask}"))
+    some (joinSp (ranks (Coll.run [] reqs)))
   | "collrun" :: nc :: rest => do
     let nc ← nc.toNat?
-    let ctors := rest.take nc
-    let reqs ← ctorReqs ctors
+    let reqs ← ctorReqs (rest.take nc)
     if reqs.isEmpty then none else
     match rest.drop nc with
-    | count :: _nq :: qs => do
+    | [count] => do
       let count ← count.toNat?
       let hist := (List.range count).map fun i => reqs[i % reqs.length]!
-      let vs := (Coll.run [] hist).toArray
-      let ids ← qs.mapM fun q => do let q ← q.toNat?; let v ← vs[q]?; some (toString v.id)
-      some (joinSp ids)
+      let ids := ((Coll.run [] hist).map Virt.id).toArray.qsort (· < ·)
+      let distinct := (List.range ids.size).countP fun i => i == 0 || ids[i]! != ids[i - 1]!
+      some s!"distinct={distinct}"
     | _ => none
   | ["lookupid", id, s] => do some (showLookup (lookupID regs (← id.toNat?) (← s.toNat?)))
   | ["lookupphys", k, i, s] => do
@@ -147,6 +157,12 @@ def handle : Handler
     let s ← methodSpec m
     let res ← parseRes res
     some (verdict (decide (VAsOK (← id.toNat?) s res)) "bad-virtual-conversion")
+  | ["accept-ctor", ctor, kind, mask, size, id] => do
+    -- a Collection constructor hands out a virtual register of its kind and width
+    let (k, s) ← ctorKindSpec ctor
+    let id ← id.toNat?
+    some (verdict ((← kind.toNat?) == k && (← mask.toNat?) == s && (← size.toNat?) == byteCount (maskBytes s) &&
+      idIsVirtual id && idKind id == k) "bad-constructor")
   | ["accept-fresh", k, i, j, idi, idj] => do
     some (verdict (decide (FreshOK (← k.toNat?) (← i.toNat?) (← j.toNat?) (← idi.toNat?) (← idj.toNat?))) "bad-collision")
   | ["accept-class", _tag, name, kind, _idx, _mask, size, _id, bits] => do
@@ -160,6 +176,6 @@ def handle : Handler
 
 def handlers : List (String × Handler) :=
   ["row", "pas", "vas", "coll", "collrun", "lookupid", "lookupphys", "id", "spec", "accept-reg", "accept-ident", "accept-as",
-   "accept-lookup", "accept-lookup-virtual", "accept-vas", "accept-fresh", "accept-class", "accept-vclass"].map (·, handle)
+   "accept-lookup", "accept-lookup-virtual", "accept-vas", "accept-ctor", "accept-fresh", "accept-class", "accept-vclass"].map (·, handle)
 
 end Avo.Drv.C20
